@@ -5,7 +5,8 @@
 //!
 //! The dump: argv, the complete environment, cwd, identity and access mode of
 //! descriptors 0/1/2, the whole descriptor table, pid/ppid/pgid/uid/gid/umask, and what
-//! could be read from stdin.  A fixed token is written to stdout and to stderr so that
+//! could be read from stdin (0/1/2 as exec left them: captured in an ELF constructor, before Rust's
+//! runtime re-opens closed standard descriptors on /dev/null).  A fixed token is written to stdout and to stderr so that
 //! the data path of every stdio mode can be checked.  Exit status: `--exit=N` (first such
 //! argument after argv[0]), else 0.  `--linger=MS`: sleep that long after stdin reached EOF
 //! (the program is still running for a known time after its stdin was closed); `--kill=SIG`:
@@ -47,6 +48,58 @@ pub fn unhex(s: &str) -> Vec<u8> {
 
 extern "C" {
     static environ: *const *const libc::c_char;
+}
+
+// Rust's runtime re-opens a CLOSED descriptor 0/1/2 on /dev/null before `main` ("sanitize standard
+// fds"), which would hide exactly what C13 wants to see (a stream closed by exec).  An ELF
+// constructor runs before that: it records fstat + access mode of 0/1/2 as exec left them.
+#[derive(Clone, Copy)]
+pub struct EarlyFd {
+    pub open: bool,
+    pub dev: u64,
+    pub ino: u64,
+    pub typ: u64,
+    pub rdev: u64,
+    pub acc: i64,
+}
+static mut EARLY: [EarlyFd; 3] = [EarlyFd { open: false, dev: 0, ino: 0, typ: 0, rdev: 0, acc: -1 }; 3];
+static mut EARLY_DONE: bool = false;
+
+extern "C" fn early_capture() {
+    unsafe {
+        for fd in 0..3 {
+            let mut st: libc::stat = std::mem::zeroed();
+            if libc::fstat(fd, &mut st) == 0 {
+                let fl = libc::fcntl(fd, libc::F_GETFL);
+                EARLY[fd as usize] = EarlyFd {
+                    open: true,
+                    dev: st.st_dev as u64,
+                    ino: st.st_ino as u64,
+                    typ: (st.st_mode & libc::S_IFMT) as u64,
+                    rdev: st.st_rdev as u64,
+                    acc: if fl < 0 { -1 } else { (fl & libc::O_ACCMODE) as i64 },
+                };
+            }
+        }
+        EARLY_DONE = true;
+    }
+}
+#[used]
+#[link_section = ".init_array"]
+static EARLY_CTOR: extern "C" fn() = early_capture;
+
+/// descriptor 0/1/2 as exec left it (before the runtime touched it); null when it was closed
+pub fn early_ident(fd: i32) -> Value {
+    unsafe {
+        if !EARLY_DONE {
+            return fd_ident(fd);
+        }
+        let e = EARLY[fd as usize];
+        if !e.open {
+            return Value::Null;
+        }
+        json!({"dev": e.dev, "ino": e.ino, "type": e.typ, "rdev": e.rdev, "acc": e.acc})
+    }
 }
 
 /// (dev, ino, file type bits, rdev, access mode) of an open descriptor, or null when closed
@@ -124,8 +177,10 @@ pub fn helper_main() -> ! {
             let n = cwdbuf.iter().position(|&c| c == 0).unwrap_or(0);
             Value::String(hex(&cwdbuf[..n]))
         };
-        let fds: Vec<Value> = (0..3).map(fd_ident).collect();
-        let table: Vec<Value> = fd_table().into_iter().map(|(n, t)| json!([n, t])).collect();
+        let fds: Vec<Value> = (0..3).map(early_ident).collect();
+        // (a standard descriptor that exec left closed and the runtime re-opened on /dev/null is not listed)
+        let table: Vec<Value> = fd_table().into_iter().filter(|(n, _)| !(0..3).contains(n) || !fds[*n as usize].is_null()).map(|(n, t)| json!([n, t])).collect();
+        let closed_at_exec: Vec<bool> = fds.iter().map(|f| f.is_null()).collect();
         let um = libc::umask(0);
         libc::umask(um);
 
@@ -162,6 +217,7 @@ pub fn helper_main() -> ! {
         let num_flag = |name: &[u8]| -> Option<i32> { argv.iter().skip(1).find_map(|a| a.strip_prefix(name).and_then(|r| String::from_utf8_lossy(r).parse::<i32>().ok())) };
         let linger = num_flag(b"--linger=");
         let kill = num_flag(b"--kill=");
+        let early_done: bool = EARLY_DONE;
         let dump = json!({
             "proto": PROTO,
             "argv": argv.iter().map(|a| hex(a)).collect::<Vec<_>>(),
@@ -177,6 +233,8 @@ pub fn helper_main() -> ! {
             "umask": um as u64,
             "stdin": hex(&stdin_data),
             "stdin_err": stdin_err,
+            "closed_at_exec": closed_at_exec,
+            "early_capture": early_done,
             "wrote": [w1 as i64, w2 as i64],
             "exit": code,
         });
